@@ -1,25 +1,272 @@
+// Harness for property C19 (crypto/spiffe): readiness never deadlocks whatever the order of first
+// calls; the latest good SVID is served, renewed at half-life, retried every 10 s; every fetch uses a
+// fresh key published with its chain and the trust anchors as one file set.
+//
+// Two scenario families run against the REAL package, in-process:
+//   - readiness: operations run/get/getp/ready/readyc/cancel/rel/ok/fail/step/run2/q executed from
+//     different goroutines in a forced order (hook spiffe.svid.afterRLock parks a reader holding the
+//     read lock; the fake issuer holds the request until told to answer);
+//   - renewal: Run on a fake clock with a scripted issuer (validity windows from seconds to years,
+//     already past half-life, not yet valid; failures; malformed answers), clock steps from
+//     milliseconds to hours, optional write directory and changing trust anchors.
+//
+// Each execution is (1) judged by model-independent monitors and (2) compared with the Lean model
+// (`kitdrv C19`): trace inclusion for readiness, exact equality of request times / served tokens /
+// armed timers / published sets for renewal.
 package main
 
 import (
+	"encoding/json"
 	"fmt"
 	"os"
+	"path/filepath"
+	"strings"
 	"time"
+
+	"verifharness/lib"
 )
 
-func main() {
-	if len(os.Args) > 1 && os.Args[1] == "probe" {
-		ca := newFakeCA()
-		for _, sc := range []RScenario{
-			{Ops: []ROp{{Op: "run"}, {Op: "ok"}, {Op: "get"}, {Op: "ready"}}},
-			{Ops: []ROp{{Op: "getp"}, {Op: "run"}, {Op: "rel", I: 0}, {Op: "ok"}, {Op: "ready"}}},
-			{Ops: []ROp{{Op: "get"}, {Op: "run"}, {Op: "ok"}, {Op: "ready"}}},
-			{Ops: []ROp{{Op: "ready"}, {Op: "run"}, {Op: "get"}, {Op: "fail"}}},
-			{Ops: []ROp{{Op: "run"}, {Op: "ok"}, {Op: "getp"}, {Op: "step"}, {Op: "ok"}, {Op: "get"}, {Op: "q"}, {Op: "rel", I: 0}}},
-		} {
-			t := time.Now()
-			o := runReady(sc, ca, 2*time.Millisecond, 300*time.Millisecond)
-			fmt.Printf("%s\n  -> %v pending=%v runPending=%v rets=%v noreq=%v (%v)\n", sc, o.Events, o.Pending, o.RunPending, o.Rets, o.NoRequest, time.Since(t))
+type Case struct {
+	Kind  string     `json:"kind"` // "ready" | "renew"
+	Ready *RScenario `json:"ready,omitempty"`
+	Renew *NScenario `json:"renew,omitempty"`
+}
+
+type runner struct {
+	f        lib.Flags
+	res      *lib.Result
+	drv      *lib.Drv
+	ca       *fakeCA
+	settle   time.Duration
+	deadline time.Duration
+	n        int
+}
+
+func (r *runner) ask(line string) (string, bool) {
+	if r.drv == nil {
+		return "", false
+	}
+	a, err := r.drv.Ask(line)
+	if err != nil {
+		r.res.Note("model driver failed: " + err.Error())
+		r.drv = nil
+		return "", false
+	}
+	return a, true
+}
+
+func (r *runner) doReady(sc RScenario) {
+	o := runReady(sc, r.ca, r.settle, r.deadline)
+	c := Case{Kind: "ready", Ready: &sc}
+	vs := monitorReady(sc, o)
+	if len(vs) > 0 {
+		// "stuck" is decided by the deadline plus a re-run of the same calls alone, in the order the
+		// package's own tests use (Run first): if they return there, the schedule is the cause.
+		alone := runReady(canonical(sc), r.ca, r.settle, r.deadline)
+		for _, v := range vs {
+			what := v.What
+			if strings.Contains(v.ID, "deadlock") {
+				what += fmt.Sprintf(" | same calls with Run first: pending=%v", alone.Pending)
+			}
+			r.res.Violate(v.ID, what, c)
 		}
+	}
+	nontrivial := false
+	seenRep := false
+	for _, e := range o.Events {
+		if strings.HasPrefix(e, "rep:") {
+			seenRep = true
+		}
+		if (e == "cg" || e == "cgp" || e == "cy") && !seenRep {
+			nontrivial = true
+		}
+		if strings.HasPrefix(e, "park:") {
+			nontrivial = true
+			r.res.Hit("ready:parked-at-hook")
+		}
+	}
+	r.res.Count("ready:"+sc.String(), nontrivial)
+	r.res.Hit("ready:scenarios")
+	if len(o.BeforeRun) > 0 {
+		r.res.Hit("ready:consumer-before-Run")
+	}
+	if len(o.Pending) > 0 {
+		r.res.Hit("ready:ends-with-pending-calls")
+	}
+	for _, v := range o.Rets {
+		r.res.Hit("ready:ret-" + strings.TrimRight(v, "0123456789"))
+	}
+	if ans, ok := r.ask("lts v=fixed ev=" + strings.Join(o.Events, ",")); ok {
+		r.res.Traces++
+		if !strings.HasPrefix(ans, "accept") {
+			r.res.Disagree("readiness LTS trace inclusion (KitModel.Spiffe.accept, variant fixed)", c, ans, strings.Join(o.Events, ","))
+		}
+	}
+	if r.n < 4 {
+		r.res.Sample(map[string]any{"case": c, "events": o.Events})
+		r.n++
+	}
+}
+
+// canonical reorders a readiness scenario: Run and the issuer's answer first, then the rest.
+func canonical(sc RScenario) RScenario {
+	var head, tail []ROp
+	for _, op := range sc.Ops {
+		switch op.Op {
+		case "run":
+			head = append([]ROp{op}, head...)
+		case "ok", "fail":
+			if len(head) < 2 {
+				head = append(head, op)
+			} else {
+				tail = append(tail, op)
+			}
+		default:
+			tail = append(tail, op)
+		}
+	}
+	return RScenario{Ops: append(head, tail...)}
+}
+
+func (r *runner) doRenew(sc NScenario, label string) {
+	work := filepath.Join(r.f.Work, fmt.Sprintf("c19-renew-%d", r.res.Evaluations))
+	o := runRenew(sc, r.ca, work, 5*time.Second)
+	c := Case{Kind: "renew", Renew: &sc}
+	for _, v := range monitorRenew(sc, o, r.res.Hit) {
+		r.res.Violate(v.ID, v.What, c)
+	}
+	r.res.Count("renew:"+scString(sc), len(o.Reqs) >= 2)
+	r.res.Hit("renew:scenarios-" + label)
+	r.res.Hit(fmt.Sprintf("renew:requests=%s", bucket(len(o.Reqs))))
+	for k, q := range o.Reqs {
+		if k > 0 {
+			r.res.Hit("renew:reply-" + q.Kind)
+		}
+	}
+	if sc.Dir {
+		r.res.Hit("renew:with-write-dir")
+	}
+	if o.Hang == "" && o.Panic == "" {
+		if ans, ok := r.ask(modelLine(sc, o)); ok {
+			r.res.Traces++
+			impl := implLine(sc, o)
+			if i := strings.Index(ans, ";writes="); i >= 0 {
+				ans = ans[:i]
+			}
+			if ans != impl {
+				r.res.Disagree("renewal automaton (KitModel.Spiffe.start/advance) = observed requests, served SVID, timers, published sets", c, ans, impl)
+			}
+		}
+	}
+	if r.n < 8 {
+		r.res.Sample(map[string]any{"case": c, "observed": implLine(sc, o)})
+		r.n++
+	}
+}
+
+func bucket(n int) string {
+	switch {
+	case n <= 1:
+		return "1"
+	case n <= 3:
+		return "2-3"
+	case n <= 8:
+		return "4-8"
+	default:
+		return "9+"
+	}
+}
+
+func main() {
+	f := lib.ParseFlags()
+	res := lib.NewResult("readiness: a consumer call is made before the issuer answers the initial request, or a reader is parked at the hook holding the read lock; renewal: at least two issuer requests (a renewal or retry happened)")
+	if f.Work == "" {
+		f.Work, _ = os.MkdirTemp("", "c19-")
+		defer os.RemoveAll(f.Work)
+	}
+	drv, err := lib.StartDrv(f.Drv, "C19")
+	if err != nil {
+		res.Note("cannot start model driver: " + err.Error())
+	}
+	defer drv.Close()
+	r := &runner{f: f, res: res, drv: drv, ca: newFakeCA(), settle: 1500 * time.Microsecond, deadline: 400 * time.Millisecond}
+	if f.Tier == "thorough" || f.Search {
+		r.deadline = 800 * time.Millisecond
+	}
+	rng := lib.NewRand(f.Seed)
+
+	if f.Replay != "" {
+		var rp struct {
+			Case Case `json:"case"`
+		}
+		b, err := os.ReadFile(f.Replay)
+		if err == nil {
+			err = json.Unmarshal(b, &rp)
+		}
+		if err != nil {
+			res.Note("cannot read replay file: " + err.Error())
+		} else if rp.Case.Kind == "ready" && rp.Case.Ready != nil {
+			r.doReady(*rp.Case.Ready)
+		} else if rp.Case.Kind == "renew" && rp.Case.Renew != nil {
+			r.doRenew(*rp.Case.Renew, "replay")
+		}
+		res.Write(f.Out)
 		return
 	}
+
+	// ---- readiness: every order of first calls
+	shapes := [][2]int{{1, 0}, {0, 1}, {1, 1}, {2, 1}, {1, 2}}
+	if f.Tier == "thorough" || f.Search {
+		shapes = append(shapes, [2]int{2, 2}, [2]int{3, 1})
+	}
+	for _, sh := range shapes {
+		for _, order := range firstCallOrders(sh[0], sh[1]) {
+			for _, reply := range []string{"ok", "fail"} {
+				for park := 0; park < 2; park++ {
+					if park == 1 && sh[0] == 0 {
+						continue
+					}
+					r.doReady(buildOrder(order, reply, park == 1))
+				}
+			}
+		}
+	}
+	for _, sc := range specialReady() {
+		r.doReady(sc)
+	}
+	nRand := 40
+	if f.Tier == "thorough" {
+		nRand = 400
+	}
+	if f.Search {
+		nRand = 1500
+	}
+	for i := 0; i < nRand; i++ {
+		r.doReady(randomReady(rng.Fork()))
+	}
+	res.Exhaustive = true // all orders of first calls for the listed shapes
+
+	// ---- renewal
+	r.n = 4
+	for _, sc := range fixedRenew() {
+		r.doRenew(sc, "fixed")
+	}
+	depth := 2
+	if f.Tier == "thorough" || f.Search {
+		depth = 3
+	}
+	for _, sc := range smallScopeRenew(depth) {
+		r.doRenew(sc, "small-scope")
+	}
+	nR := 150
+	if f.Tier == "thorough" {
+		nR = 1500
+	}
+	if f.Search {
+		nR = 5000
+	}
+	for i := 0; i < nR; i++ {
+		r.doRenew(randomRenew(rng.Fork()), "random")
+	}
+	res.Write(f.Out)
 }
